@@ -39,6 +39,7 @@ def write_tree(root, files):
 
 class Check(CheckBase):
     property_id = 'C03'
+    evaluations_counter = 'states'
     level = 'fault_enumeration'
     rule = ('three fault families over snapshot / delete / clean on a repository that already holds two snapshots sharing '
             'chunks (and, for clean, orphans): (1) LOGICAL CRASH POINTS on in-memory backends (thread and coroutine flavour, '
